@@ -86,7 +86,7 @@ def followWith (fixed : Bool) (g : Graph) (e : Elem) (n : Nat) : List Nat :=
       | none => false) |> dedup
 
 inductive Status where
-  | good | badNodeIdUnknown | badNothingToDo | badBrowseNameInvalid | badNoMatch
+  | good | badNodeIdUnknown | badNothingToDo | badBrowseNameInvalid | badNoMatch | badTooManyOperations
 deriving Repr, DecidableEq
 
 /-- the element loop of `find_nodes_relative_path` -/
@@ -111,5 +111,21 @@ def translateWith (fixed : Bool) (g : Graph) (start : Nat) (es : List Elem) : Ex
 
 /-- the current source -/
 def translate := translateWith true
+
+/-- answer of the TranslateBrowsePathsToNodeIds service: a service fault, or one result per path -/
+inductive ReqOut where
+  | fault (s : Status)
+  | results (rs : List (Except Status (List Nat)))
+
+/-- `ViewService::translate_browse_paths_to_node_ids`: empty request → BadNothingToDo, more paths
+than `max_nodes_per_translate_browse_paths_to_node_ids` → BadTooManyOperations, a path without an
+element array → BadNothingToDo for that path -/
+def translateRequest (limit : Nat) (g : Graph) (paths : List (Nat × Option (List Elem))) : ReqOut :=
+  if paths.isEmpty then .fault .badNothingToDo
+  else if paths.length ≤ limit then
+    .results (paths.map fun p => match p.2 with
+      | none => .error .badNothingToDo
+      | some es => translate g p.1 es)
+  else .fault .badTooManyOperations
 
 end OpcuaVerif.C31
